@@ -1,4 +1,6 @@
 import TnVerif.Generated
+import TnVerif.Model.Cross
+import TnVerif.Lemmas.Sum
 import Mathlib.Algebra.BigOperators.Ring.Finset
 import Mathlib.Algebra.BigOperators.Intervals
 import Mathlib.Algebra.Order.Field.Basic
@@ -105,6 +107,101 @@ theorem reported_min (xs : List (P × K)) (hne : xs ≠ []) :
     ∃ r, trackMin Option.none xs = some r ∧ r ∈ xs ∧ ∀ x ∈ xs, r.2 ≤ x.2 :=
   (trackMin_spec xs Option.none).2 rfl hne
 end tracking
+
+/-! ### the result interpolates the function on the fibres through the returned right index sets
+
+After the right-to-left sweep (cross.py:423-451) core `j ≥ 1` restricted to its pivot columns is the identity
+(`solve_identity_on_pivots`), the right index sets are nested (`rsetsOf`), and the first core holds the function values on
+the fibres through `rsets[0]` (`cores[0] = evaluate_function(0)`, cross.py:453-455).  Hence the chain to the right of the first
+core, evaluated at the `k`-th right index, is the `k`-th unit vector, and the tensor reproduces the first core there. -/
+section sweep
+variable {R : Type} [CommSemiring R]
+
+/-- state after the right-to-left sweep: the cores `1 … N-1` (as chain modes, `G i a b = core[a, i, b]`), each with the flat
+    pivot positions `loc` maxvol chose in its `I_j × R_{j+1}` unfolding.  `pivotOK p` says: ranks chain up (`m.rl = p`, last
+    `rr = 1`), pivots lie in the unfolding, and the core restricted to its pivot columns is the identity. -/
+def pivotOK (p : Nat) : List (Mode R × (Nat → Nat)) → Prop
+  | [] => p = 1
+  | (m, loc) :: rest =>
+    m.rl = p ∧ (∀ k, k < p → loc k % m.rr < m.rr) ∧
+      (∀ a k, a < p → k < p → m.G (loc k / m.rr) a (loc k % m.rr) = if a = k then 1 else 0) ∧ pivotOK m.rr rest
+
+/-- the `(R_{j+1}, local_j)` levels of a chain, as `rsetsOf` consumes them -/
+def levels (ch : List (Mode R × (Nat → Nat))) : List (Nat × (Nat → Nat)) := ch.map fun x => (x.1.rr, x.2)
+
+/-- **nested-pivot lemma**: the product of the cores `j … N-1` at the `k`-th right index `rsets[j-1][k]` is the `k`-th unit vector -/
+theorem tail_on_rsets : ∀ (ch : List (Mode R × (Nat → Nat))) (p : Nat), pivotOK p ch → ∀ a k, a < p → k < p →
+    tail (ch.map (·.1)) (rsetsOf (levels ch) k) a = if a = k then 1 else 0 := by
+  intro ch
+  induction ch with
+  | nil =>
+    intro p hp a k ha hk
+    simp only [pivotOK] at hp
+    subst hp
+    have : a = k := by omega
+    simp [tail, this]
+  | cons x rest ih =>
+    obtain ⟨m, loc⟩ := x
+    intro p hp a k ha hk
+    obtain ⟨_, hin, hid, hrest⟩ := hp
+    simp only [List.map_cons, levels, rsetsOf, tail, sumTo_eq]
+    have hstep : ∀ b ∈ range m.rr, m.G (loc k / m.rr) a b * tail (rest.map (·.1)) (rsetsOf (levels rest) (loc k % m.rr)) b =
+        if b = loc k % m.rr then m.G (loc k / m.rr) a b else 0 := by
+      intro b hb
+      rw [ih m.rr hrest b (loc k % m.rr) (Finset.mem_range.mp hb) (hin k hk)]
+      split <;> simp
+    have hlev : (List.map (fun x => (x.1.rr, x.2)) rest) = levels rest := rfl
+    rw [hlev, Finset.sum_congr rfl hstep, Finset.sum_ite_eq' (range m.rr) (loc k % m.rr)]
+    simp only [Finset.mem_range, hin k hk, if_true]
+    exact hid a k ha hk
+
+/-- **interpolation**: with a first core of left rank 1, the tensor at `(i₀, rsets[0][k])` equals the first core's entry
+    `cores[0][0, i₀, k]`, for EVERY first-mode index `i₀` and every right index `k` -/
+theorem cross_reproduces_first_core (m0 : Mode R) (ch : List (Mode R × (Nat → Nat))) (h0 : m0.rl = 1)
+    (hp : pivotOK m0.rr ch) (i0 k : Nat) (hk : k < m0.rr) :
+    dense (m0 :: ch.map (·.1)) (i0 :: rsetsOf (levels ch) k) = m0.G i0 0 k := by
+  simp only [dense, h0, tail, sumTo_eq, Finset.sum_range_one]
+  have hstep : ∀ b ∈ range m0.rr, m0.G i0 0 b * tail (ch.map (·.1)) (rsetsOf (levels ch) k) b =
+      if b = k then m0.G i0 0 b else 0 := by
+    intro b hb
+    rw [tail_on_rsets ch m0.rr hp b k (Finset.mem_range.mp hb) hk]
+    split <;> simp
+  rw [Finset.sum_congr rfl hstep, Finset.sum_ite_eq' (range m0.rr) k]
+  simp [hk]
+
+/-- … and since the first core holds the function values on those fibres (`cores[0] = evaluate_function(0)`), the result
+    reproduces the sampled function exactly on every first-mode fibre through the returned right index sets -/
+theorem cross_interpolates (F : List Nat → R) (m0 : Mode R) (ch : List (Mode R × (Nat → Nat))) (h0 : m0.rl = 1)
+    (hp : pivotOK m0.rr ch) (hF : ∀ i k, i < m0.n → k < m0.rr → m0.G i 0 k = F (i :: rsetsOf (levels ch) k))
+    (i0 k : Nat) (hi : i0 < m0.n) (hk : k < m0.rr) :
+    dense (m0 :: ch.map (·.1)) (i0 :: rsetsOf (levels ch) k) = F (i0 :: rsetsOf (levels ch) k) := by
+  rw [cross_reproduces_first_core m0 ch h0 hp i0 k hk, hF i0 k hi hk]
+
+/-- the hypotheses are satisfiable: two modes of size 2, ranks 1, pivot row 1 of the second core -/
+example : pivotOK (R := Int) 1 [({ rl := 1, rr := 1, n := 2, G := fun i _ _ => if i = 1 then 1 else 5 }, fun _ => 1)] := by
+  refine ⟨rfl, ?_, ?_, rfl⟩
+  · intro k _; simp
+  · intro a k ha hk
+    have : a = k := by omega
+    simp [this]
+end sweep
+
+section solve
+variable {K : Type} [Field K]
+
+/-- the identity-on-pivots clause of `pivotOK` is what the least-squares solve delivers: if the core is the reshaped solution
+    (`core[a, i, b] = C[i·R_{j+1} + b, a]`, cross.py:434-435) of an exact solve against the invertible pivot rows -/
+theorem pivot_identity_of_solve (m : Mode K) (Q C W : Nat → Nat → K) (loc : Nat → Nat)
+    (hG : ∀ i a b, m.G i a b = C (i * m.rr + b) a)
+    (hC : ∀ l c, l < m.n * m.rr → c < m.rl → (∑ q ∈ range m.rl, C l q * Q (loc q) c) = Q l c)
+    (hW : ∀ q j, q < m.rl → j < m.rl → (∑ c ∈ range m.rl, Q (loc q) c * W c j) = if q = j then 1 else 0)
+    (hloc : ∀ k, k < m.rl → loc k < m.n * m.rr) (a k : Nat) (ha : a < m.rl) (hk : k < m.rl) :
+    m.G (loc k / m.rr) a (loc k % m.rr) = if a = k then 1 else 0 := by
+  rw [hG, Nat.div_add_mod', solve_identity_on_pivots (m.n * m.rr) m.rl Q C W loc hC hW hloc k a hk ha]
+  by_cases h : a = k
+  · simp [h]
+  · simp [h, Ne.symm h]
+end solve
 
 /-- the contraction patterns of `cross.py` the design was written against, re-extracted on every run -/
 theorem einsums_from_source :
